@@ -1,5 +1,5 @@
 use super::state::GlobalState;
-use lsp_server::{ExtractError, Message, Notification, Request, Response};
+use lsp_server::{ErrorCode, ExtractError, Message, Notification, Request, Response};
 use serde::Serialize;
 
 pub struct RequestDispatcher<'a> {
@@ -36,11 +36,14 @@ impl<'a> RequestDispatcher<'a> {
                 return Ok(self);
             }
         };
-        let result = hook(self.state, params)?;
-        let resp = Response {
-            id,
-            result: Some(serde_json::to_value(result).unwrap()),
-            error: None,
+        let resp = match hook(self.state, params) {
+            Ok(result) => Response {
+                id,
+                result: Some(serde_json::to_value(result).unwrap()),
+                error: None,
+            },
+            // A failing request is answered with an error, it must not stop the server.
+            Err(err) => Response::new_err(id, ErrorCode::RequestFailed as i32, err.to_string()),
         };
         self.state.conn.sender.send(Message::Response(resp))?;
         Ok(self)
